@@ -278,6 +278,7 @@ def run(ctx, method, sym=(), conc=None, elig=None, record_push=False,
             mm.greedy_search()
             mm.exhaustive_search()
             par.n_designs = k_now
+          del out.pushed[:]     # keep only the pushes of the judged search
           if method == 'exhaustive':
             out.result = mm.exhaustive_search()
           else:
